@@ -75,6 +75,10 @@ def gen_species_spec(rng, name, kind, phase, elements, n_sites):
         sp = {'type': 'Nasa9', 'name': name,
               'nasas': [{'T_low': pts[k], 'T_high': pts[k + 1], 'a': S.gen_nasa9_coeffs(rng)}
                         for k in range(nseg)]}
+        # Nasa9 accepts its intervals in any order
+        if nseg >= 2 and rng.random() < 0.4:
+            rng.shuffle(sp['nasas'])
+            sp['nasas_order'] = 'shuffled'
     else:
         sh = S.gen_shomate(rng, name=name, phase=phase, elements=elements, units='J/mol/K')
         sp = {'type': 'Shomate', 'name': name, 'T_low': T_low, 'T_high': T_high, 'a': sh['a'],
